@@ -83,9 +83,12 @@ func (e *env) take(op string, node int) (Fault, bool) {
 	for i, f := range e.faults {
 		if f.Op == op && f.Node == node {
 			e.faults = append(e.faults[:i], e.faults[i+1:]...)
-			if f.Phase == "long" {
+			switch f.Phase {
+			case "long":
 				e.soft++
-			} else {
+			case "race":
+				// another writer, not a failure: the call has to succeed all the same
+			default:
 				e.fired++
 			}
 			return f, true
@@ -112,6 +115,25 @@ func (b *breaking) Read(p []byte) (int, error) {
 	return n, err
 }
 func (b *breaking) Close() error { return b.rc.Close() }
+
+// tracked is a fetched stream whose Close is recorded: a source read is in flight from the Fetch call until its stream
+// is closed.
+type tracked struct {
+	io.ReadCloser
+	w    *srcW
+	n    int
+	once sync.Once
+}
+
+func (t *tracked) Close() error {
+	err := t.ReadCloser.Close()
+	t.once.Do(func() { t.w.e.tr.Emit(map[string]any{"e": "fetchC", "n": t.n}) })
+	return err
+}
+
+func (w *srcW) track(n int, rc io.ReadCloser) io.ReadCloser {
+	return &tracked{ReadCloser: rc, w: w, n: n}
+}
 
 // srcW wraps the source. It is a ReadOnlyGraphTarget.
 type srcW struct {
@@ -140,10 +162,10 @@ func (w *srcW) Fetch(ctx context.Context, d ocispec.Descriptor) (io.ReadCloser, 
 			rc, err := w.und.Fetch(ctx, d)
 			if err == nil {
 				w.e.tr.Emit(map[string]any{"e": "fetchE", "n": n, "man": man, "err": false, "why": "longfault"})
-				return struct {
+				return w.track(n, struct {
 					io.Reader
 					io.Closer
-				}{io.MultiReader(rc, bytes.NewReader(bytes.Repeat([]byte("Z"), 70000))), rc}, nil
+				}{io.MultiReader(rc, bytes.NewReader(bytes.Repeat([]byte("Z"), 70000))), rc}), nil
 			}
 		}
 		if f.Phase == "mid" {
@@ -151,7 +173,7 @@ func (w *srcW) Fetch(ctx context.Context, d ocispec.Descriptor) (io.ReadCloser, 
 			rc, err := w.und.Fetch(ctx, d)
 			if err == nil {
 				w.e.tr.Emit(map[string]any{"e": "fetchE", "n": n, "man": man, "err": false, "why": "midfault"})
-				return &breaking{rc: rc, left: d.Size / 2}, nil
+				return w.track(n, &breaking{rc: rc, left: d.Size / 2}), nil
 			}
 		}
 		w.e.tr.Emit(map[string]any{"e": "fetchE", "n": n, "man": man, "err": true, "why": "fault"})
@@ -160,6 +182,9 @@ func (w *srcW) Fetch(ctx context.Context, d ocispec.Descriptor) (io.ReadCloser, 
 	rc, err := w.und.Fetch(ctx, d)
 	w.e.tr.Emit(map[string]any{"e": "fetchE", "n": n, "man": man, "err": err != nil, "why": ""})
 	w.e.after()
+	if err == nil {
+		rc = w.track(n, rc)
+	}
 	return rc, err
 }
 
@@ -308,9 +333,19 @@ func (w *dstW) Exists(ctx context.Context, d ocispec.Descriptor) (bool, error) {
 		w.e.tr.Emit(map[string]any{"e": "existsE", "n": n, "r": false, "err": true, "why": "ctx"})
 		return false, err
 	}
-	if _, ok := w.e.take("exists", n); ok {
-		w.e.tr.Emit(map[string]any{"e": "existsE", "n": n, "r": false, "err": true, "why": "fault"})
-		return false, ErrInjected
+	if f, ok := w.e.take("exists", n); ok {
+		if f.Phase != "race" {
+			w.e.tr.Emit(map[string]any{"e": "existsE", "n": n, "r": false, "err": true, "why": "fault"})
+			return false, ErrInjected
+		}
+		// another writer stores this blob right after the destination answered "not there": the push that follows is
+		// told that the content exists already (only for leaf blobs - a foreign writer's manifest would break the
+		// destination's closure by itself)
+		if ok, err := w.und.Exists(ctx, d); err == nil && !ok && len(w.e.g.SuccAll(n)) == 0 && !vh.IsManifestKind(w.e.g.Nodes[n].Kind) {
+			w.e.tr.Emit(map[string]any{"e": "existsE", "n": n, "r": false, "err": false, "why": "race"})
+			w.und.Push(ctx, w.e.g.Descs[n], bytes.NewReader(w.e.g.Blobs[n]))
+			return false, nil
+		}
 	}
 	ok, err := w.und.Exists(ctx, d)
 	w.e.tr.Emit(map[string]any{"e": "existsE", "n": n, "r": ok, "err": err != nil, "why": ""})
